@@ -134,6 +134,16 @@ fn gen(dir: &str) {
         let (a, b) = match r.below(4) { 0 => (44, 155381), 1 => (r.u64_edge(), r.u64_edge()), 2 => (r.below(1000), r.below(1_000_000)), _ => (r.next() >> r.below(64), r.next() >> r.below(64)) };
         emit(&mut out, format!("lin {} {} {}", size, a, b));
     }
+    // linear fee, boundary-directed: the exact result lands on 2^64-1 +- 1 (largest representable value, first overflow)
+    for i in 0..n / 10 {
+        let size = match r.below(4) { 0 => 0, 1 => 1 + r.below(20000), 2 => 1 + r.below(1 << 32), _ => 3 };
+        let coeff = if size == 0 { r.u64_edge() } else { match r.below(3) { 0 => r.below(1000), 1 => (u64::MAX / size).saturating_sub(r.below(3)), _ => r.below(u64::MAX / size + 1) } };
+        let prod = size as u128 * coeff as u128;
+        if prod > u64::MAX as u128 { continue; }
+        let d = (i % 3) as i128 - 1;
+        let konst = (u64::MAX as i128 - prod as i128 + d).clamp(0, u64::MAX as i128) as u64;
+        emit(&mut out, format!("lin {} {} {}", size, coeff, konst));
+    }
     // ex-unit cost
     for _ in 0..n {
         let (mem, steps) = match r.below(4) { 0 => (r.below(14_000_000), r.below(10_000_000_000)), 1 => (r.u64_edge(), r.u64_edge()), 2 => (0, r.u64_edge()), _ => (r.next() >> r.below(64), r.next() >> r.below(64)) };
